@@ -39,6 +39,11 @@ def kit():
     K = SimpleNamespace(torch=torch, zoo=zoo, linear_operator=linear_operator, NumericalWarning=NumericalWarning)
     f64 = torch.float64
     K.DT = {"f64": torch.float64, "f32": torch.float32}
+    import os
+
+    K.SEED = int(os.environ.get("VERIF_SEED", "0") or 0)
+    # every random matrix / vector of the families is drawn from gen(base_seed): base_seed + 7919 * VERIF_SEED
+    K.gen = lambda s: zoo.gen(int(s) + 7919 * K.SEED)
 
     def dtn(dt):
         return "f64" if dt == torch.float64 else "f32"
@@ -224,18 +229,11 @@ def _lab(**kw):
     return "|".join(f"{k}={v}" for k, v in kw.items())
 
 
-def _mach_floor(dt, kappa):
-    import torch
-
-    em = 1.2e-7 if dt == torch.float32 else 2.3e-16
-    return 50 * em * kappa
-
-
 def _cg_problem(K, seed, dt, kind, cond, n, batch, ncols, pk, lo=1.0):
     """A (dt), A64, rhs (dt), float64 solution, closure P (dt) / P64, spectrum bounds of the
     (preconditioned) operator"""
     torch = K.torch
-    g = K.zoo.gen(seed)
+    g = K.gen(seed)
     A = K.spd(g, batch, n, kind, cond, dt, lo=lo)
     A64 = A.double()
     b = K.zoo.rn(g, *batch, n, ncols, dtype=dt)
@@ -286,7 +284,7 @@ def rtc_cg_budget(dtname, kinds, tier):
             A, A64, b, P, P64, ev, kap = _cg_problem(K, 1000 + seed, dt, kind, cond, n, batch, ncols, pk)
             kapA = float((torch.linalg.eigvalsh(A64)[..., -1] / torch.linalg.eigvalsh(A64)[..., 0]).max())
             lminA = torch.linalg.eigvalsh(A64)[..., 0]
-            g = K.zoo.gen(seed)
+            g = K.gen(seed)
             x0 = None
             if guess == "random":
                 x0 = K.zoo.rn(g, *batch, n, ncols, dtype=dt)
@@ -366,7 +364,6 @@ def rtc_cg_limit(dtname, kinds, tier):
     sizes = K.sizes(tier, [1, 2, 3, 5, 9, 16, 31, 64], [1, 2, 3, 4, 5, 7, 9, 12, 16, 22, 31, 45, 64])
     conds = [10.0, 1e3, 1e6] if dt == torch.float64 else [10.0, 1e3]
     em = 1.2e-7 if dt == torch.float32 else 2.3e-16
-    rel = 2e-4 if dt == torch.float32 else 1e-9
     seed = 0
     old_default = torch.get_default_dtype()
     for kind, cond, n, batch in itertools.product(kinds, conds, sizes, K.BATCHES):
@@ -494,7 +491,7 @@ def rtc_cg_limit(dtname, kinds, tier):
                               f"shape {tuple(xv2.shape)} err {(xv2.double() - xsv).norm().item():.3e}")
             # initial guesses: exact solution (iteration skipped), perturbed solution, random
             xs = torch.linalg.solve(A64, b.double())
-            for gname, x0 in (("exact", xs.to(dt)), ("near", (xs * (1 + 1e-3)).to(dt)), ("random", K.zoo.rn(K.zoo.gen(seed), *b.shape, dtype=dt))):
+            for gname, x0 in (("exact", xs.to(dt)), ("near", (xs * (1 + 1e-3)).to(dt)), ("random", K.zoo.rn(K.gen(seed), *b.shape, dtype=dt))):
                 lab = lab0 + f"|x0={gname}"
                 x0c = x0.clone()
                 done, out = rec.guard(f"initial_guess/{pk}-{dtname}", lab, lambda: K.run_warn(lambda: linear_cg(A.matmul, b, initial_guess=x0, **kw)))
@@ -749,7 +746,7 @@ def rtc_cg_errors(tier):
 
     for dtname, dt in K.DT.items():
         for n, batch, ncols in itertools.product([1, 2, 5, 17], K.BATCHES, [1, 3]):
-            g = K.zoo.gen(n * 7 + len(batch))
+            g = K.gen(n * 7 + len(batch))
             A = K.spd(g, batch, n, "uniform", 10.0, dt)
             b = K.zoo.rn(g, *batch, n, ncols, dtype=dt)
             lab = _lab(dt=dtname, n=n, b=batch, cols=ncols)
@@ -807,7 +804,7 @@ def rtc_cg_solve_api(case_names, tier):
     from linear_operator.operators import LinearOperator
 
     rec = Recorder(PID)
-    for label, c, op, dense in zoo.instances(tier, names=case_names, psd=True, square=True):
+    for label, c, op, dense in zoo.instances(tier, names=case_names, psd=True, square=True, seed=K.SEED):
         if op is None:
             continue  # constructor failures belong to C01
         dt = dense.dtype
@@ -818,7 +815,7 @@ def rtc_cg_solve_api(case_names, tier):
         if float(ev.min()) <= 0:
             continue
         kap = float((ev[..., -1] / ev[..., 0]).max())
-        g = zoo.gen(n + 17)
+        g = K.gen(n + 17)
         for ncols in (1, 3):
             b = zoo.rn(g, *batch, n, ncols, dtype=dt)
             tol = 1e-3
